@@ -210,7 +210,57 @@ def shards(tier):
     for j, (fid, t, mn, mx) in enumerate(occurrence_types()):
         for pos in ('seq-arg', 'seq', 'seq-inherited', 'arr-arg', 'arr', 'arr-inherited'):
             out.append({'kind': 'occ', 'j': j, 'fid': fid, 'pos': pos, 'tier': tier})
+    for fam in FAMILIES:
+        for first in range(len(VARIANT_OPS)):
+            out.append({'kind': 'variants', 'family': fam, 'first': first, 'tier': tier})
     return out
+
+
+def variants_program():
+    """a class and a customised variant of it (child_attrs tightening one member) used by two methods of one application"""
+    U_, I_ = ['p', 'Unicode', {}], ['p', 'Integer', {}]
+    Item = {'n': 'Item', 'fields': [['name', U_], ['note', U_], ['qty', I_]]}
+    strict = ['c', 'Item', {'child_attrs': {'note': {'min_occurs': 1}, 'qty': {'ge': 1}}}]
+    ms = [{'n': 'put_draft', 'args': [['i', ['c', 'Item', {}]]], 'ret': I_}, {'n': 'put_final', 'args': [['i', strict]], 'ret': I_}]
+    return {'tns': universe.TNS, 'classes': [Item], 'services': [{'n': 'S', 'methods': ms}]}
+
+
+# (method, value, reference verdict)
+VARIANT_OPS = [('put_draft', Obj('Item', name='n', note=None, qty=None), True), ('put_draft', Obj('Item', name='n', note='x', qty=0), True),
+               ('put_final', Obj('Item', name='n', note=None, qty=5), False), ('put_final', Obj('Item', name='n', note='x', qty=5), True),
+               ('put_final', Obj('Item', name='n', note='x', qty=0), False)]
+
+
+def run_variants(shard, res, only=None):
+    import itertools
+    program = variants_program()
+    res['cov']['programs'] += 1
+    fam = shard['family']
+    for hist in itertools.product(range(len(VARIANT_OPS)), repeat=3):
+        if hist[0] != shard['first']:
+            continue
+        key = list(hist)
+        if only is not None and only != key:
+            continue
+        h = make_harness(program, fam)
+        res['evaluations'] += 1
+        good = True
+        for step, oi in enumerate(hist):
+            mname, v, exp = VARIANT_OPS[oi]
+            oc, detail, req = send(h, fam, mname, [v], ['c', 'Item', {}])
+            if oc == 'skip':
+                continue
+            want = 'accept' if exp else 'reject'
+            if oc != want:
+                res['violations'].append({'sig': 'C05|variants|%s|%s>%s|%s|%s' % (mname, want, oc, 'first-call' if step == 0 else 'later-call', fam),
+                                          'what': '[%s soft] history %s on one application: step %d %s(%r): reference verdict %s, observed %s (%s); request=%r' % (
+                                              fam, [VARIANT_OPS[i][:2] for i in hist], step, mname, v, want, oc, detail if oc != 'accept' else 'function ran', req if req is None else req[:300]),
+                                          'case': {'variants': True, 'shard': shard, 'only': key}, 'count': 1})
+                good = False
+                break
+        if good:
+            res['nontrivial'] += 1
+        res['outcomes']['variant-history'] = res['outcomes'].get('variant-history', 0) + 1
 
 
 def make_harness(program, fam):
@@ -322,6 +372,10 @@ def expected_for(t, v, pos):
 def run_shard(shard):
     res = {'evaluations': 0, 'nontrivial': 0, 'outcomes': {}, 'violations': [], 'samples': [], 'cov': {'programs': 0}, 'notes': {}}
     tier = shard['tier']
+    if shard['kind'] == 'variants':
+        run_variants(shard, res)
+        from vf.props.c01 import compress
+        return compress(res)
     if shard['kind'] == 'facet':
         fid, t, vals = facets(tier)[shard['i']]
         if 'part' in shard:
